@@ -18,6 +18,8 @@ pub struct C09;
 
 pub const FNAMES: &[&[u8]] = &[
     b"a", b"a.txt", b"a.~1~", b"a.~1~.~2~", b"ab", b"b.", b"file.txt", b"file", b"z\xff", b"z\xffq", b"\xfe", "\u{fc}".as_bytes(), b"n~", b"1", b"~1~", b"f g",
+    // <name>.~1~ is exactly NAME_MAX (255) bytes / one byte too long: the backup rename itself fails
+    &[b'L'; 251], &[b'M'; 252],
 ];
 
 #[derive(Clone, Copy, Debug, Serialize, Deserialize, PartialEq)]
@@ -30,6 +32,10 @@ pub enum NumClass {
     Digits25,
     Zero,
     LeadingZeros,
+    /// 1..=n with n in 9..=12: numbers of different lengths side by side
+    UpTo(u8),
+    /// two arbitrary numbers below 1200
+    Pair(u16, u16),
 }
 
 fn numbers(nc: NumClass) -> Vec<String> {
@@ -42,6 +48,8 @@ fn numbers(nc: NumClass) -> Vec<String> {
         NumClass::Digits25 => vec!["1234567890123456789012345".into()],
         NumClass::Zero => vec!["0".into()],
         NumClass::LeadingZeros => vec!["007".into()],
+        NumClass::UpTo(n) => (1..=(9 + n % 4)).map(|i| i.to_string()).collect(),
+        NumClass::Pair(a, b) => vec![(1 + a % 1200).to_string(), (1 + b % 1200).to_string()],
     }
 }
 
@@ -77,6 +85,8 @@ fn num_class() -> BoxedStrategy<NumClass> {
         1 => Just(NumClass::Digits25),
         1 => Just(NumClass::Zero),
         1 => Just(NumClass::LeadingZeros),
+        2 => (0u8..4).prop_map(NumClass::UpTo),
+        2 => (any::<u16>(), any::<u16>()).prop_map(|(a, b)| NumClass::Pair(a, b)),
     ]
     .boxed()
 }
@@ -136,7 +146,9 @@ fn num_gt(a: &[u8], b: &[u8]) -> bool {
 }
 
 fn name_class(name: &[u8]) -> &'static str {
-    if std::str::from_utf8(name).is_err() {
+    if name.len() > 200 {
+        "name-max"
+    } else if std::str::from_utf8(name).is_err() {
         "non-utf8"
     } else if name.ends_with(b"~") {
         "backup-like"
@@ -251,7 +263,7 @@ pub fn judge(c: &Case, rec: &mut Rec) -> Verdict {
             let mut bn = n.clone();
             bn.extend_from_slice(format!(".~{}~", num).as_bytes());
             let p = join(b"d/s", &bn);
-            if ents.iter().any(|e| e.path == p) {
+            if ents.iter().any(|e| e.path == p) || bn.len() > 255 {
                 continue;
             }
             ents.push(Ent::file(&p, Content::data(20 + k as u64, 200u8.wrapping_add(k as u8))).with_mtime(1_000_000_000, k as u32));
@@ -411,6 +423,6 @@ impl Check for C09 {
         }
     }
     fn required_classes(&self, _tier: Tier) -> Vec<String> {
-        ["step|numbered|", "step|auto|", "step|none|", "non-utf8", "backup-like", "|killed", "kill|Rename|"].iter().map(|s| s.to_string()).collect()
+        ["step|numbered|", "step|auto|", "step|none|", "non-utf8", "backup-like", "name-max", "|killed", "kill|Rename|"].iter().map(|s| s.to_string()).collect()
     }
 }
